@@ -47,7 +47,8 @@ def evaluate(case, res):
             continue
         text, before, after = states[si]
         si += 1
-        k = w.on_cmd_state(seg.text)
+        it = s.io.items[seg.index]
+        k = w.on_cmd_state(seg.text, it[3] if len(it) > 3 else None)
         if not k.startswith('list'):
             continue
         if before != after:
@@ -81,7 +82,10 @@ def evaluate(case, res):
                 continue
             matches = lambda m: lm.matches(m)
         else:
-            matches = lambda m: (not w.filter_never) and w.filter.matches(m)
+            if w.unknown:
+                res.count('filter-meaning-not-modelled(skipped)')
+                continue
+            matches = lambda m: w.filter_matches(m)
         pool = w.pool()
         allm = [m for m in pool if matches(m)]
         res.evals += len(pool)
